@@ -1,0 +1,48 @@
+//go:build verif
+
+package proto
+
+// Machine-checked contracts for package proto (comment-only; read by /verif/govc).
+// Syntax: DESIGN.md section 2.2 / Appendix B in /verif.
+
+//@ import time time
+
+// ---------------------------------------------------------------------------
+// C20: scalar conversions
+
+//@ contract (d Date) Unix() (r) props(C20)
+//@   ensures r == 86400 * d
+//@ contract (d Date) Time() (t) props(C20)
+//@   ensures t.sec == 86400 * d && t.nsec == 0 && t.off == 0
+//@ contract ToDate(t) (d) props(C20)
+//@   requires 0 <= t.sec + t.off && t.sec + t.off < 65536 * 86400
+//@   ensures d == floordiv(t.sec + t.off, 86400) {day}
+
+//@ contract (d Date32) Unix() (r) props(C20)
+//@   ensures r == 86400 * d
+//@ contract (d Date32) Time() (t) props(C20)
+//@   ensures t.sec == 86400 * d && t.nsec == 0 && t.off == 0
+//@ contract ToDate32(t) (d) props(C20)
+//@   requires -2208988800 <= t.sec + t.off && t.sec + t.off < 10413792000
+//@   case nonneg:
+//@     requires t.sec + t.off >= 0
+//@     ensures d == floordiv(t.sec + t.off, 86400) {day}
+//@   case neg:
+//@     requires t.sec + t.off < 0
+//@     ensures d == floordiv(t.sec + t.off, 86400) {day}
+
+//@ contract ToDateTime(t) (d) props(C20)
+//@   requires 0 <= t.sec && t.sec < 4294967296
+//@   ensures d == t.sec
+//@ contract (d DateTime) Time() (t) props(C20)
+//@   ensures t.sec == d && t.nsec == 0
+
+//@ contract (p Precision) Scale() (r) props(C20)
+//@   ensures p <= 9 ==> r == pow10(9 - p)
+//@   ensures p >= 9 ==> r == 1
+//@ loop 0 (d, i)
+//@   invariant p <= i && i <= 9 && d == pow10(9 - i) || p > 9 && i == 9 && d == 1
+//@ contract (p Precision) Valid() (r) props(C20)
+//@   ensures r == (p <= 9)
+//@ contract (p Precision) Duration() (r) props(C20)
+//@   ensures p <= 9 ==> r == pow10(9 - p)
